@@ -102,7 +102,7 @@ impl Prop for C04 {
         "the agent's real run (real session, readers, evaluator against a fake IRRd, compare, \
          pipelined loads) against a fake Junos that injects one fault: every position of the \
          request sequence open / get-config x2 / load x N / commit / close-configuration / \
-         close-session for N = 0..5 x every fault kind {rpc-error, truncated reply, wrong root, not \
+         close-session for N = 0..5 x every fault kind {rpc-error, truncated reply, the normal reply without the end tag of its root element, wrong root, not \
          XML, unknown message-id, close before the reply, close after the reply, and at load positions the Junos result shapes: results with error and load-error-count, error followed by <ok/>, error followed by <ok></ok>, warning-error-warning-<ok/>} is enumerated \
          (plus the fault-free runs); policy contents are sampled. Load replies are withheld until \
          the last load has been received, so a failing load reply provably arrives after later \
